@@ -53,6 +53,8 @@ def configs(run, d):
         ("allds-libcbuf", base + b"output = file:" + out.encode() + b"\nmessage_format = \"" + all_ds_format(run).encode() + b"\"\n"),
         # the exec-calling child's parent carries a command name that looks like the tail of a stat line: ") S <its own pid>"
         ("spawns-statlike-comm", base + b"output = file:" + out.encode() + b"\nfilter_chain = \"exclude_spawns_of:nosuchprogram,sshd\"\n"),
+        # the log file opens but every write fails (ENOSPC): the exec must still be reached and get its result
+        ("file-devfull", base + b"output = file:/dev/full\n"),
         ("smallmsg", base + b"log_message_max_length = 255\ndatasource_message_max_length = 255\noutput = file:" + out.encode() + b"\n"),
     ]
 
@@ -179,7 +181,7 @@ def check(run):
             script.insert(7, "libcbuf\t1")
         if ci % 4 == 1:
             script.insert(7, "env\t~")    # environ == NULL in this process
-        res = run_script(run, lib, script, "c01-%d" % ci, timeout=60 if name.startswith("spawns-") else 300)
+        res = run_script(run, lib, script, "c01-%d" % ci, timeout=60 if (name.startswith("spawns-") or name == "file-devfull") else 300)
         return (ci, name, plan, res, script)
 
     results = run_many(job, jobs, workers=8)
